@@ -242,6 +242,14 @@ func (g *c04Gen) boolean(d int) *c04Expr {
 				a = g.addVar(c04Var{Kind: "nan"})
 			case 1:
 				b = g.addVar(c04Var{Kind: "nan"})
+			case 2, 3: // an unsigned value beyond the int64 range on the right of a floating-point operand
+				if g.n(0, 1, "bigLeftLiteral") == 0 {
+					v := c04Floats[g.n(0, len(c04Floats)-1, "bigflit")]
+					a = &c04Expr{Op: "num", Num: v, Text: strconv.FormatFloat(v, 'f', -1, 64)}
+				} else {
+					a = g.addVar(c04Var{Kind: []string{"float64", "float32"}[g.n(0, 1, "bigfkind")], F: []float64{0.5, -1.5, 3, 9.3e18, 1e19}[g.n(0, 4, "bigfval")]})
+				}
+				b = g.addVar(c04Var{Kind: []string{"biguint", "biguint64"}[g.n(0, 1, "bigKind")], I: int64(g.n(0, 3, "bigOffset")) * 4096})
 			}
 			return g.style(&c04Expr{Op: "bin", Bop: op, A: a, B: b})
 		}
@@ -552,6 +560,9 @@ func (ev *c04Eval) eval(e *c04Expr) c04Val {
 		if v.Kind == "nan" {
 			return c04Val{k: 'f', f: math.NaN()}
 		}
+		if v.Kind == "biguint" || v.Kind == "biguint64" {
+			return c04Val{k: 'U', f: float64(uint64(1)<<63 + uint64(v.I))}
+		}
 		if v.Kind == "nstring" {
 			return c04Val{k: 's', s: v.S}
 		}
@@ -608,6 +619,14 @@ func (ev *c04Eval) eval(e *c04Expr) c04Val {
 	}
 	a, b := ev.eval(e.A), ev.eval(e.B)
 	ev.kinds[string(a.k)+e.Bop+string(b.k)] = true
+	if a.k == 'U' || b.k == 'U' {
+		// unsigned values beyond the int64 range: only "floating-point operand on the left" is stated (the right
+		// operand is converted to the left one's kind, and float64 holds it)
+		if a.k != 'f' || (e.Bop != "<" && e.Bop != "<=" && e.Bop != ">" && e.Bop != ">=") {
+			panic(c04Discard{"big-unsigned-operand"})
+		}
+		b = c04Val{k: 'f', f: b.f}
+	}
 	switch e.Bop {
 	case "==", "!=":
 		var eq bool
@@ -750,6 +769,10 @@ func (v c04Var) goValue() interface{} {
 		return uint32(v.I)
 	case "uint64":
 		return uint64(v.I)
+	case "biguint":
+		return uint(1)<<63 + uint(v.I)
+	case "biguint64":
+		return uint64(1)<<63 + uint64(v.I)
 	case "float64":
 		return v.F
 	case "float32":
